@@ -62,6 +62,8 @@ def build(M: int, lens: tuple, opening: bool, pickup: int, final: bool, kern_spi
                 continue
             cells.append(NOTES[(i * kern_spines + c) % len(NOTES)] if (i * kern_spines + c) < len(NOTES)
                          else '%d%s' % (16, 'cdefgab'[(i + c) % 7] * 3))
+            if blanks & 64:      # every note carries a tie mark (start / continuation / end in turn): ties cross the barlines in every phase
+                cells[-1] += ('[', '_', ']')[(i + c) % 3]
         if text_spine:
             cells.append(WORDS[i % len(WORDS)])
         return Line('data', cells)
@@ -84,6 +86,7 @@ def build(M: int, lens: tuple, opening: bool, pickup: int, final: bool, kern_spi
         lines.append(Line('bar', ['=='] * ncol, n_bar=0))
     lines.append(Line('term', ['*-'] * ncol))
     # blanks (bit set): 1 = an empty line after the header block, 2 = an empty line in front of every barline,
+    # 64 = tie marks on every note (see data_row);
     # 4 = a global comment line in front of every barline and after the first data line (global comments are stored in the tree
     # but never exported: stages and exported rows drift apart), 8 = a reference record '!!!OTL: x' after the signature rows
     out = []
